@@ -420,11 +420,6 @@ func execTime(o hx.Op) string {
 		var at time.Time
 		aOK, aRest := asn1Try(in, &at, params)
 		if ok != aOK {
-			// encoding/asn1 accepts DER fractional seconds in GeneralizedTime ("19030314155149.5Z", X.690 11.7),
-			// cryptobyte rejects them: reported as its own class (KNOWN-FINDING while undecided).
-			if aOK && !ok && params == "generalized" && bytes.IndexByte(in, '.') >= 0 {
-				return "time agree=0 frac"
-			}
 			return "time agree=0"
 		}
 		if !ok {
@@ -996,7 +991,7 @@ func genTime(g *hx.Gen) {
 		s = s[:len(s)-2]
 	case 1:
 		g.Stat("time.fraction")
-		s += ".5"
+		s += r.PickStr(".5", ".5", ".50", ".123456789", ".0", ".", ".1234567891", ".05")
 	case 2:
 		g.Stat("time.bad-field")
 		b := []byte(s)
